@@ -82,8 +82,110 @@ def run_integrator(case, ctx):
     ctx.mark_nontrivial(m.produced > 0 and (m.nonzero_vd or 'vertical_force' in m.flags))
 
 
+def _run_filter(case, ctx, which):
+    from pyins import filters, strapdown, sim
+    from .. import sched
+    from . import c09
+    sc = sched.Scenario(case)
+    c09.labels(ctx, sc)
+    gm, am = sc.models()
+    kwargs = {'with_altitude': False}
+    step = sc.time_step()
+    if step is not None:
+        kwargs['time_step'] = step
+    if gm is not None:
+        kwargs['gyro_model'] = gm
+        kwargs['accel_model'] = am
+    kwargs['measurements'] = sc.meas_arg()
+    alt0 = np.float64(sc.pva0.alt)
+    if which == 'feedback':
+        pva0 = sc.pva0.copy()
+        pva0['VD'] = 7.5                       # supplied vertical velocity must be discarded
+        res = ctx.sut(filters.run_feedback_filter, pva0, 5.0, 0.5, 0.5, 1.0, sc.increments, **kwargs)
+        tr = res.trajectory
+        ctx.check(len(tr) == len(sc.t), 'row_count', f'{len(tr)} vs {len(sc.t)}')
+        bad = np.flatnonzero(tr.VD.values != 0.0)
+        ctx.check(len(bad) == 0, 'filter_vd_nonzero', lambda: f'rows {bad[:5]} VD {tr.VD.values[bad[:5]]}')
+        bad = np.flatnonzero(tr.alt.values.view(np.uint64) != alt0.view(np.uint64))
+        ctx.check(len(bad) == 0, 'filter_altitude_changed', lambda: f'rows {bad[:5]} alt {tr.alt.values[bad[:5]]!r} vs {alt0!r}')
+    else:
+        err = pd.Series([3.0, -2.0, 0.0, 0.2, -0.1, 0.0, 0.1, -0.1, 0.3], index=gen.ERR_COLS)
+        start = sim.perturb_pva(sc.pva0, err)
+        start.name = sc.pva0.name
+        computed = strapdown.Integrator(start, False).integrate(sc.increments)
+        kwargs['increments'] = sc.increments
+        res = ctx.sut(filters.run_feedforward_filter, sc.truth, computed, 5.0, 0.5, 0.5, 1.0, **kwargs)
+    sd = res.trajectory_sd
+    ctx.check(np.all(sd['down'].values == 0.0) and np.all(sd['VD'].values == 0.0), 'vertical_sd_nonzero',
+              lambda: f"down {sd['down'].values[:4]} VD {sd['VD'].values[:4]}")
+    ctx.check(np.all(np.isfinite(sd.values)), 'sd_not_finite', '')
+    if case['meas_mode'] == 'list':
+        for cls in sc.samples:
+            ncol = 3 if cls == 'BodyVelocity' else 2
+            inn = res.innovations[cls]
+            if len(inn):
+                ctx.check(inn.shape[1] == ncol, f'innovation_width:{cls}', f'{inn.shape}')
+    n_meas = sc.n_epochs_inside if case['meas_mode'] == 'list' else 0
+    ctx.label(f'corrections={"0" if n_meas == 0 else "1-3" if n_meas <= 3 else ">3"}')
+    ctx.mark_nontrivial(n_meas >= 1)
+
+
+def run_feedback(case, ctx):
+    _run_filter(case, ctx, 'feedback')
+
+
+def run_feedforward(case, ctx):
+    _run_filter(case, ctx, 'feedforward')
+
+
+def meas_strategy():
+    return st.fixed_dictionaries({
+        'pva': gen.pva_strategy(),
+        'cls': st.sampled_from(['Position', 'NedVelocity']),
+        'lever': st.sampled_from(['none', 'zero', 'arm']),
+        'rates': st.booleans(),
+        'sub': st.integers(0, 2 ** 31 - 1),
+    })
+
+
+def run_measurements(case, ctx):
+    from pyins import measurements, error_model
+    rng = np.random.RandomState(case['sub'])
+    pva = gen.to_pva(case['pva'], 12.5)
+    if case['rates']:
+        pva = pd.concat([pva, pd.Series(rng.uniform(-0.5, 0.5, 3), index=['rate_x', 'rate_y', 'rate_z'])])
+    arm = {'none': None, 'zero': np.zeros(3), 'arm': rng.uniform(-3, 3, 3)}[case['lever']]
+    sdv = float(10 ** rng.uniform(-2, 1))
+    if case['cls'] == 'Position':
+        data = pd.DataFrame([[pva.lat + 1e-5, pva.lon - 1e-5, pva.alt + rng.uniform(-500, 500)]], index=[12.5], columns=['lat', 'lon', 'alt'])
+        m = measurements.Position(data, sdv, arm)
+    else:
+        data = pd.DataFrame([[pva.VN + 0.1, pva.VE - 0.2, rng.uniform(-50, 50)]], index=[12.5], columns=['VN', 'VE', 'VD'])
+        m = measurements.NedVelocity(data, sdv, arm)
+    em = error_model.InsErrorModel(with_altitude=False)
+    ret = ctx.sut(m.compute_matrices, 12.5, pva, em)
+    ctx.check(ret is not None, 'none_at_present_time', '')
+    z, H, R = ret
+    ctx.check(np.shape(z) == (2,) and np.shape(H) == (2, 7) and np.shape(R) == (2, 2), 'vertical_row_not_dropped',
+              lambda: f'{np.shape(z)} {np.shape(H)} {np.shape(R)}')
+    ctx.check(np.array_equal(R, sdv ** 2 * np.eye(2)), 'R_2d', lambda: str(R))
+    # the 3D model on the same inputs: first two rows of z agree (the vertical content does not leak)
+    z3, H3, R3 = m.compute_matrices(12.5, pva, error_model.InsErrorModel(True))
+    ctx.check(np.array_equal(np.asarray(z3)[:2], np.asarray(z)), 'z_2d_differs_from_3d_rows', lambda: f'{z} vs {z3}')
+    ctx.label(case['cls'], f"lever={case['lever']}", 'rates' if case['rates'] else 'no_rates')
+    ctx.mark_nontrivial(True)
+
+
+def _sched_2d():
+    from .. import sched
+    return sched.schedule_strategy(modes=(False,), meas_modes=('list', 'list', 'list', 'list', 'none'))()
+
+
 CLAUSES = [
     Clause('integrator', c02.case_strategy(modes=(False,)), run_integrator, quick=(240, 8), thorough=(8000, 16)),
+    Clause('feedback', _sched_2d, run_feedback, quick=(48, 4), thorough=(1600, 16)),
+    Clause('feedforward', _sched_2d, run_feedforward, quick=(48, 4), thorough=(1600, 16)),
+    Clause('measurements', meas_strategy, run_measurements, quick=(200, 1), thorough=(4000, 4)),
 ]
 
 warmup = c02.warmup
